@@ -272,18 +272,32 @@ func VH_C13_encrypt_decrypt_equal_specification() {
 //verif:prop C13
 //verif:replay none
 //verif:solver cvc5
-//verif:bounds Initialize(key, id, counter): key length in {0,1,16,32}, id length in {0,1,24}, counter length in {0,1,2,4,8}, all bytes symbolic
-//verif:cover keyed;unkeyed;counter
+//verif:bounds Initialize(key, id, counter) or InitializeEmpty() on a fresh object or on one in an arbitrary state (phase, mode, 1600 state bits): key length in {0,1,16,32} (nil and empty non-nil), id length in {0,1,24}, counter length in {0,1,2,4,8}, all bytes symbolic
+//verif:cover keyed;unkeyed;counter;reused;initialize-empty
 //verif:timeout 600
 func VH_C13_initialize_equals_specification() {
 	key := verifBytes("key", verifPick("keylen", 0, 1, 16, 32))
 	id := verifBytes("id", verifPick("idlen", 0, 1, 24))
 	ctr := verifBytes("counter", verifPick("ctrlen", 0, 1, 2, 4, 8))
+	if len(key) == 0 && verifBool("key-is-nil") {
+		key = nil
+	}
+	// a fresh object or a USED one (arbitrary phase, mode, state): a reset must
+	// not depend on what the object did before
 	c := &Cyclist{}
-	c.Initialize(key, id, ctr)
+	if verifBool("object-was-used") {
+		c, _ = c13Pair()
+		verifCover("reused")
+	}
 	r := &c13Ref{}
+	if len(key) == 0 && verifBool("use-initialize-empty") {
+		c.InitializeEmpty()
+		verifCover("initialize-empty")
+	} else {
+		c.Initialize(key, id, ctr)
+	}
 	r.initialize(key, id, ctr)
-	verifAssert(c13SameState(c, r), "C13: Initialize(key, id, counter) gives the state the specification prescribes")
+	verifAssert(c13SameState(c, r), "C13: Initialize(key, id, counter) / InitializeEmpty give the state the specification prescribes, whatever the object did before")
 	verifAssert(verifAnd(c.rAbsorb == c13Rate, c.rSqueeze == c13Rate), "C13: rates are those of the instantiation")
 	if len(key) > 0 {
 		verifCover("keyed")
